@@ -18,8 +18,16 @@ type scope struct {
 	pfx   string
 	tag   string
 	ports map[int]bool
+	proto map[int]string    // server-chosen ports: the protocol the case got the port for
 	rids  map[string]string // run id -> actor id
+
+	expTCP, expUDP map[int]bool // ports the model of the last expected() call says are in use
 }
+
+// judged: which lines exist for a port of the scope. Explicit ports belong to the case alone (both protocols, used or
+// free, socket or no socket). A port the server chose is shared with the other cases as soon as it is released, so only
+// "still attributed to a proxy of this case" and, while the model says it is in use, the socket are judged.
+func (sc *scope) exclusive() bool { return !sc.e.auto }
 
 // live describes what the reference model says is registered right now.
 type live struct {
@@ -109,16 +117,17 @@ func (sc *scope) expected(lv []live) map[string]bool {
 		if usedTCP[p] {
 			out[fmt.Sprintf("tcpused:%d", p)] = true
 			out[fmt.Sprintf("oslisten:tcp:%d", p)] = true
-		} else {
+		} else if sc.exclusive() {
 			out[fmt.Sprintf("tcpfree:%d", p)] = true
 		}
 		if usedUDP[p] {
 			out[fmt.Sprintf("udpused:%d", p)] = true
 			out[fmt.Sprintf("osbound:udp:%d", p)] = true
-		} else {
+		} else if sc.exclusive() {
 			out[fmt.Sprintf("udpfree:%d", p)] = true
 		}
 	}
+	sc.expTCP, sc.expUDP = usedTCP, usedUDP
 	return out
 }
 
@@ -194,27 +203,29 @@ func (sc *scope) actual() map[string]bool {
 		freeUDP[p] = true
 	}
 	for p, n := range sn.TCPPorts.Used {
-		if strings.HasPrefix(n, sc.pfx) || sc.ports[p] {
+		if strings.HasPrefix(n, sc.pfx) || (sc.ports[p] && sc.exclusive()) {
 			out[fmt.Sprintf("tcpused:%d", p)] = true
 		}
 	}
 	for p, n := range sn.UDPPorts.Used {
-		if strings.HasPrefix(n, sc.pfx) || sc.ports[p] {
+		if strings.HasPrefix(n, sc.pfx) || (sc.ports[p] && sc.exclusive()) {
 			out[fmt.Sprintf("udpused:%d", p)] = true
 		}
 	}
 	osTCP, osUDP := osTruth()
 	for p := range sc.ports {
-		if freeTCP[p] {
-			out[fmt.Sprintf("tcpfree:%d", p)] = true
+		if sc.exclusive() {
+			if freeTCP[p] {
+				out[fmt.Sprintf("tcpfree:%d", p)] = true
+			}
+			if freeUDP[p] {
+				out[fmt.Sprintf("udpfree:%d", p)] = true
+			}
 		}
-		if freeUDP[p] {
-			out[fmt.Sprintf("udpfree:%d", p)] = true
-		}
-		if osTCP[p] {
+		if osTCP[p] && (sc.exclusive() || sc.expTCP[p]) {
 			out[fmt.Sprintf("oslisten:tcp:%d", p)] = true
 		}
-		if osUDP[p] {
+		if osUDP[p] && (sc.exclusive() || sc.expUDP[p]) {
 			out[fmt.Sprintf("osbound:udp:%d", p)] = true
 		}
 	}
